@@ -215,10 +215,19 @@ func ZZ_C09_requestsAtArbitraryTimes() {
 		nondet.Assert("C09.requests.at-most-maxUnavailable-deleted", deletes <= 1)
 		at = append(at, now)
 		touched = append(touched, creates+deletes > 0)
-		// the kubelet catches up, no time passes
+		// the kubelet catches up, no time passes — or the pods this sync created are lost again right
+		// away (evicted, node rebooted), so that the next sync observes the very counters this one stored
+		lost := map[string]bool{}
+		if nondet.Bool("createdPodsLost" + strconv.Itoa(q)) {
+			for _, e := range c.Log[from:] {
+				if e.Kind == "Pod" && e.Verb == "create" {
+					lost[e.Name] = true
+				}
+			}
+		}
 		var kept []*corev1.Pod
 		for _, p := range c.Pods {
-			if p.DeletionTimestamp != nil {
+			if p.DeletionTimestamp != nil || lost[p.Name] {
 				continue
 			}
 			if p.Spec.NodeName == "" {
